@@ -10,13 +10,9 @@ from ..lang.ast import (
     OperationDefinition,
     Selection,
 )
-from ..schema import Schema
-from .coerce_value import coerce_variable_values
-from .collect_fields import (
-    ExpansionBudgetExhausted,
-    _skip_selection,
-    collect_fields_untyped,
-)
+from ..schema import IncludeDirective, Schema, SkipDirective
+from .coerce_value import coerce_variable_values, directive_arguments
+from .collect_fields import ExpansionBudgetExhausted, collect_fields_untyped
 
 
 def _skip_unless_unknown(node: Node, variables: Mapping[str, Any]) -> bool:
@@ -25,11 +21,28 @@ def _skip_unless_unknown(node: Node, variables: Mapping[str, Any]) -> bool:
     or null in the mapping the rule has, e.g. for an operation the request does
     not execute) keep the selection: the depth is then an upper bound over the
     unknown condition and the rule never raises.
+
+    The two directives are evaluated on their own: a selection is excluded as
+    soon as ONE of them is known to exclude it, whatever the other one is
+    (``@skip(if: true) @include(if: $unknown)`` is skipped for every value).
     """
     try:
-        return _skip_selection(node, variables)  # type: ignore
+        skip = directive_arguments(SkipDirective, node, variables=variables)
+        if skip is not None and skip["if"]:
+            return True
     except CoercionError:
-        return False
+        pass
+
+    try:
+        include = directive_arguments(
+            IncludeDirective, node, variables=variables
+        )
+        if include is not None and not include["if"]:
+            return True
+    except CoercionError:
+        pass
+
+    return False
 
 
 def _static_nesting(selections: Sequence[Selection]) -> int:
